@@ -195,7 +195,13 @@ def check_triple(rd, r, phi, nax, shape, nl, kT, q, cden, e_kin, variant, tol, r
         if bad.any():
             i = int(np.argmax(bad)); out.append(("line_density", f"2 pi int n r dr = {integ[i]!r} but the requested line density is {nl[i]!r} (species {i}, q={q[i]})"))
     # residual of the discretised Boltzmann-Poisson system
-    l, d, u = rd.fd_system_nonuniform_grid(r)
+    # the finite-difference operator of *this* mesh, written out from the documented three-point stencil (not taken from the package, whose own
+    # construction is under test): interior node r, left / right steps a, b
+    l = np.zeros(r.size); d = np.zeros(r.size); u = np.zeros(r.size)
+    a_ = r[1:-1] - r[:-2]; b_ = r[2:] - r[1:-1]; rr_ = r[1:-1]
+    w1 = 2 / (b_ * a_ * (b_ + a_)); w2 = 1 / (rr_ * (b_ ** 2 * a_ + b_ * a_ ** 2))
+    l[1:-1] = b_ * w1 - b_ ** 2 * w2; d[1:-1] = -(a_ + b_) * w1 + (b_ ** 2 - a_ ** 2) * w2; u[1:-1] = a_ * w1 + a_ ** 2 * w2
+    d[0] = -2 / (r[1] - r[0]) ** 2; u[0] = 2 / (r[1] - r[0]) ** 2; d[-1] = 1.0
     n_ax = np.asarray(nax).reshape(-1, 1)
     bx = -(n_ax * q.reshape(-1, 1) * sh * Q_E / EPS_0); bx[:, -1] = 0
     b = bx.sum(axis=0) + (-cden / np.sqrt(2 * Q_E * (e_kin + phi) / M_E) / EPS_0 if variant == "ebeam" else ref)
@@ -225,7 +231,8 @@ def search(ctx):
             if (not np.isfinite(cvv) and np.all(pp_ >= pp_[0])) or cvv < 1.5 - 1e-9:
                 add("heat_capacity_min", f"heat_capacity(q={inp['q']}, kT={inp['kT']}) = {cvv!r} (must be finite and >= 3/2)", {"variant": "cv", "r": rr_, "phi": pp_, "hq": inp["q"], "hkT": inp["kT"]})
         if "cur" in inp:
-            cases.append((float(inp["cur"]), float(inp["e_kin"]), float(inp["r_e"]), np.asarray(inp["r"], float), np.asarray(inp["nl"], float), np.asarray(inp["kT"], float), np.asarray(inp["q"], float), float(inp.get("rel_diff", 1e-6))))
+            # (re-solved to a tight tolerance, so that the residual statement is sharp on the mesh / species of the disagreement)
+            cases.append((float(inp["cur"]), float(inp["e_kin"]), float(inp["r_e"]), np.asarray(inp["r"], float), np.asarray(inp["nl"], float), np.asarray(inp["kT"], float), np.asarray(inp["q"], float), min(float(inp.get("rel_diff", 1e-6)), 1e-10)))
     for _ in range(24 if (ctx.thorough or ctx.failures) else 5):
         cur, e, r_e, r_d = beam(rng)
         r = grid(rng, r_e, r_d, int(rng.choice([60, 120, 240])))
